@@ -293,6 +293,10 @@ def generate(rng, tier):
             "config": {"waitq": rng.choice(["heap", "sd"])}}
     if scenario.get("share_conditions") == "history":
         case["repeat"] = True
+        if rng.random() < 0.4:
+            # ... after a replication that was aborted by a failing activity while dates of the
+            # shared objects were still to come (their triggers died with that simulation)
+            case["aborted_first"] = rng.choice([0.125, 0.375, 1.125])
     if not valid(case):        # generator and model disagree: never run such a program
         raise AssertionError("C01 generator produced an invalid program")
     return case
@@ -309,6 +313,13 @@ def run_case(case):
         return run_one(P, case)
     SHARED_CONDITIONS.clear()
     try:
+        if case.get("aborted_first"):
+            import copy
+            aborted = copy.deepcopy(case)
+            aborted["scenario"]["actors"].append({"name": "zfail", "ops": [
+                {"op": "sleep", "d": case["aborted_first"]}, {"op": "raise", "type": "E"}]})
+            from ..world import execute, cleanup
+            cleanup(execute(aborted))   # ends with zfail's exception; what it did is not judged
         first = run_one(P, case)
         if first.violations:
             return first
